@@ -19,6 +19,6 @@ CONSTANTS
   FixedF5 = FALSE
   RecordHist = FALSE
   KnownF5 = TRUE
-INVARIANTS T_ConfigRevisionStep T_RejectedChangesNothing T_ReplicasSameConfig T_GlineIsConfig T_ExpirationFollowsConfig T_BehaviourUsesConfig
+INVARIANTS T_ConfigRevisionStep T_RejectedChangesNothing T_ReplicasSameConfig T_GlineIsConfig T_AcceptedPostReplacesBans T_BansAreExactlyConfig T_ReplicasAgreeOnBans T_ExpirationFollowsConfig T_BehaviourUsesConfig
 POSTCONDITION Accept
 CHECK_DEADLOCK FALSE
